@@ -2,23 +2,26 @@
 C11 — every internal link leads to a page and anchor that exist.
 
 Over the `Output` model (lean/PdModel/Output.lean): `Documentable.url/page_object/isVisible`,
-`linker.taglink`, `TemplateWriter._writeDocsFor/writeSummaryPages`, and every producer of links /
-listing entries with the guard the code has.  `WF s` is what C02 establishes about a real registry
-(parents before children, `contents` and `parent` agree, qualified names pairwise different); the
-driver evaluates `wf` on every table it is sent.
+`linker.taglink` with its visibility guard, `TemplateWriter._writeDocsFor/writeSummaryPages`, and every
+producer of links / listing entries — the code as fixed by cb98646, aaed9bd, 1da744b, 97be2c0, 07382d3.
+`WF s` is what C02 establishes about a real registry (parents before children, `contents` and `parent`
+agree, parentless objects are roots, qualified names pairwise different, `parentMod` = innermost module);
+the driver evaluates `wf` on every table it is sent.
 
-* `url_resolves_iff`      `url o` leads to a written file (+ anchor) ⇔ `o` is visible and reached through
-                          `contents` from a root (so: not a superseded duplicate `'x 0'`, nor inside one —
-                          `superseded_not_reachable`, `inside_superseded_not_reachable`)
+* `url_resolves_iff`, `url_resolves_iff_visible`   `url o` leads to a written file (+ anchor) ⇔ `o` is visible
+                          (⇔ visible and reached through `contents`: `visible_reachable`); never for a
+                          superseded duplicate `'x 0'` or anything inside one (`superseded_invisible`)
 * `own_page_exists`, `member_anchor_exists`   the second sentence of the property
-* `links_resolve`         every link of the rows whose guard implies "visible and reached" resolves
-* `shorten_resolves`      same-page shortening is harmless on the page it was computed for
-* The full statement "every emitted link resolves" is FALSE of the current code: `links_resolve_partial`
-  states it for all rows under explicit hypotheses; `links_resolve_counterexample_superseded` (DESIGN §8-4),
-  `links_resolve_counterexample_hidden` (§8-11), `links_resolve_counterexample_context` (inherited
-  docstrings), `inhierarchy_counterexample` ("View In Hierarchy") are the witnesses.
-* `origin`                one pass over the producer table: what each row's code path guarantees
-                          (used by C12 as well).
+* `shorten_resolves`, `ctx_ok`   same-page shortening is harmless on the page it was computed for, and every
+                          `taglink` call is made with the address of the page being written
+* `links_resolve`         FULL STRENGTH, ALL 28 PRODUCER ROWS: every hyperlink the run emits resolves
+* `origin`, `mem_emits`   one pass over the producer table / what the guard in `taglink` leaves of it
+* historical counterexamples (pre-fix `…Old` definitions): `links_resolve_counterexample_superseded_old`
+  (DESIGN §8-4, before cb98646), `…_hidden_old` (§8-11, before aaed9bd), `…_context_old` (before 1da744b),
+  `inhierarchy_counterexample_old` (before cb98646), `inhierarchy_counterexample_collision_old` (before
+  97be2c0); each also states that the fixed model no longer exhibits it.
+* not proved: that the "View In Hierarchy" link of every class page has its anchor in classIndex.html
+  (correspondence streams `inhierarchy` / `classanchors` and the direct oracle only).
 -/
 import PdModel.Output
 namespace Output
